@@ -465,6 +465,24 @@ def coll_oracle(interp, env, f, args, t, bb, path):
             order = sorted(range(len(items)), key=lambda i: keys[i])
             view_set(interp, v0, [items[i] for i in order])
             return unit
+        if nm in ("sort_by", "sort_unstable_by") and len(args) == 2:
+            # stable insertion sort driven by the comparator closure (an unstable sort may order ties differently:
+            # rules that compare results must treat tied members as interchangeable)
+            out = []
+            for x_i, x in enumerate(items):
+                pos = len(out)
+                for j in range(len(out)):
+                    # element references are handed to the comparator through a scratch vector
+                    tmp = new_vec(interp, [out[j], x])
+                    o = _call1(interp, args[1], [HRef(tmp.vid, 0), HRef(tmp.vid, 1)])
+                    if not (isinstance(o, Agg) and o.name == "core::cmp::Ordering"):
+                        return TOP
+                    if o.variant == "Greater":
+                        pos = j
+                        break
+                out.insert(pos, x)
+            view_set(interp, v0, out)
+            return unit
         if nm in ("sort", "sort_unstable") and len(args) == 1:
             keys = [rank(interp, env, x) for x in items]
             if any(r is None for r in keys):
